@@ -812,6 +812,26 @@ void KMeansppCenters(matrix *m,
     for(i = 0; i < D->size; i++){
       D_square->data[i] = square(D->data[i]);
     }
+    /* No distance mass to sample from: every remaining point coincides with a selected centre
+     * (duplicated points). Take the first object not selected yet, or stop if there is none. */
+    A = 0.f;
+    for(i = 0; i < D_square->size; i++){
+      A += D_square->data[i];
+    }
+    if(A <= 0.f){
+      for(i = 0; i < m->row; i++){
+        if(UIVectorHasValue(selections, i) == 1){
+          UIVectorAppend(selections, i);
+          q--;
+          break;
+        }
+      }
+      if(i == m->row)
+        break;
+      else
+        continue;
+    }
+
     /* Step 4 */
     A = 0.f;
     B = 0.f;
